@@ -82,6 +82,10 @@ def _case(draw, tier):
     c["ri"] = draw(st.booleans())
     c["max_tau"] = draw(gen.maxtau_for(g))
     c["threshold"] = draw(st.sampled_from([0.0, 0.5, 0.25, 1.0]))
+    # a selection through `indices` for the list forms (a proper subset when there are
+    # three or more trains: unselected trains still take part in the reconciliation)
+    N = len(trains)
+    c["indices"] = list(draw(st.permutations(list(range(N)))))[:draw(st.integers(2, max(2, N - 1)))]
     # psth uses the edges of the first train: bin not larger than that recording
     c["bin"] = (trains[0]["e1"] - trains[0]["e0"]) / q / draw(st.sampled_from([1, 2, 4]))
     c["compiled"] = draw(st.booleans())
@@ -122,6 +126,8 @@ def classify(case):
         labels.append("differing_edges")
     if case["mrts"] == "auto":
         labels.append("mrts_auto")
+    if case.get("indices") is not None and len(case["indices"]) < len(case["messy"]):
+        labels.append("indices_proper_subset")
     return sorted(set(labels))
 
 
@@ -257,7 +263,11 @@ def run_case(case, ctx):
             forms.append(("pair", lambda L: (L[0], L[1])))
         if kind in ("list", "generic"):
             forms.append(("list", lambda L: (L,)))
+            if case.get("indices") is not None:
+                forms.append(("indices", lambda L: (L,)))
         for fname, mk in forms:
+            if fname == "indices":
+                kw = dict(kw, indices=list(case["indices"]))
             a = messy()
             sa = _snap(a)
             r_messy = ctx.call(name + ":messy", fn, *mk(a), **kw)
